@@ -10,12 +10,10 @@ CONSTANTS
   DotAll = TRUE
   FindFirst = FALSE
   Emit = "lts"
-  StaleCache = FALSE
-  KeyBeforeTranslate = FALSE
-  Pool <- MCPool
-  QNames <- MCQNames
-SPECIFICATION CSpec
-INVARIANT CacheCoherent
-PROPERTY SameResult
-VIEW CView
+  MemoKeyJoined = FALSE
+  JoinSep = 10
+  MPool <- MCMPool
+  MNames <- MCMNames
+SPECIFICATION MSpec
+VIEW MViewCur
 CHECK_DEADLOCK FALSE
